@@ -61,8 +61,11 @@ func (publisherSelf *PublisherDef[T]) Unsubscribe(s *Subscription[T]) {
 		for i, v := range subscribers {
 			if v == s {
 				isAnyMatching = true
-				subscribers = append(subscribers[:i], subscribers[i+1:]...)
-				publisherSelf.subscribers = subscribers
+				// Build a new slice: a Publish in progress still iterates the old backing array
+				remaining := make([]*Subscription[T], 0, len(subscribers)-1)
+				remaining = append(remaining, subscribers[:i]...)
+				remaining = append(remaining, subscribers[i+1:]...)
+				publisherSelf.subscribers = remaining
 				break
 			}
 		}
